@@ -21,6 +21,7 @@ tp.print = lambda *a, **k: None
 class Stage:
     name = "?"
     item_counts = {"quick": [2], "thorough": [2, 4]}
+    extract_count = None         # a larger item count for extraction-only obligations (no BMC): many messages
     entry = None
     worker = None
 
@@ -44,6 +45,7 @@ class Stage:
 class VisitLeaves(Stage):
     name = "visit_leaves"
     item_counts = {"quick": [2], "thorough": [2, 4]}
+    extract_count = 13
     entry = tp.Pyramid._visit_leaves_parallel
     worker = tp._mp_visit_worker
 
@@ -72,6 +74,7 @@ class VisitLeaves(Stage):
 class Transform(Stage):
     name = "transform"
     item_counts = {"quick": [1], "thorough": [1, 5]}
+    extract_count = 85
     entry = ttr._transform_parallel
     worker = ttr._transform_mp_worker
 
@@ -120,6 +123,7 @@ class _FakePio:
 
 class MultiTan(Stage):
     name = "multi_tan"
+    extract_count = 9
     entry = tmt.MultiTanProcessor._tile_parallel
     worker = tmt._mp_tile_worker
 
@@ -150,6 +154,7 @@ class MultiTan(Stage):
 
 class MultiWcs(Stage):
     name = "multi_wcs"
+    extract_count = 9
     entry = tmw.MultiWcsProcessor._tile_parallel
     worker = tmw._mp_tile_worker
 
